@@ -270,6 +270,20 @@ func (c *Ctx) RequireNoCrashFrom(rule string, roots []*ssa.Function, exempt map[
 				c.Ob(rule, key, true, true, "exempt: %s (%s)", why, c.Pos(s.In.Pos()))
 				continue
 			}
+			// a helper split off exempt functions (absent from the reference inventory, called only
+			// from them) inherits their exemption for the same kind of construct
+			ownersTbl := map[string]string{}
+			for k, why := range exempt {
+				if strings.HasSuffix(k, " / "+s.Kind) {
+					ownersTbl[strings.TrimSuffix(k, " / "+s.Kind)] = why
+				} else if !strings.Contains(k, " / ") {
+					ownersTbl[k] = why
+				}
+			}
+			if owners, ok := c.ownersOf(fname(f), ownersTbl, 3); ok {
+				c.Ob(rule, key, true, true, "exempt as helper of %s: %s (%s)", strings.Join(owners, ", "), ownersTbl[owners[0]], c.Pos(s.In.Pos()))
+				continue
+			}
 			c.Require(rule, key, false, "%s at %s; reached via %s", s.Kind, c.Pos(s.In.Pos()), reachPath(reach, f))
 		}
 	}
